@@ -1481,6 +1481,46 @@ def case_sampleset(ctx, r, B):
         B.add(line, f'{target} {rows_tok(got_rows)} {rats(nss.record.energy)}', site, ic, 'SampleSet.change_vartype vs model', detail=dict(script=src))
 
 
+def case_sampleset_twice(ctx, r, B):
+    """`SampleSet.change_vartype(inplace=False)` asked twice on one sample set, the arrays of the first result edited in place in
+    between (rows, energies, occurrences): the second result must be the conversion of the untouched source, which must still hold
+    its own rows"""
+    n = r.choice([1, 2, 3])
+    labels = r.sample(LABELS, n)
+    vt = r.choice(['SPIN', 'BINARY'])
+    target = 'BINARY' if vt == 'SPIN' else 'SPIN'
+    k = r.randint(1, 3)
+    rows = [[r.choice(domain(vt)) for _ in labels] for _ in range(k)]
+    en = [q8(r) for _ in range(k)]
+    eo = r.choice([0.0, q8(r)])
+    tgt_dom = domain(target)
+    src = (SS_HDR + f'ss = dimod.SampleSet.from_samples(({rows!r}, {labels!r}), {vt!r}, energy={en!r}, sort_labels=False)\n'
+           f'a = ss.change_vartype({target!r}, inplace=False)\n'
+           f'a.record.sample[0, 0] = {tgt_dom[0]} if a.record.sample[0, 0] == {tgt_dom[1]} else {tgt_dom[1]}\n'
+           'a.record.energy[0] += 3\n'
+           + ('a.relabel_variables({%r: "zz"})\n' % (labels[0],) if r.random() < .5 else '')
+           + f'n = ss.change_vartype({target!r}, energy_offset={eo!r}, inplace=False)\n')
+    conv = (lambda s_: (s_ + 1) // 2) if target == 'BINARY' else (lambda x: 2 * x - 1)
+    exp_rows = [[conv(x) for x in row] for row in rows]
+    exp_en = [float(F(e) + F(eo)) for e in en]
+    check = (f'assert n.vartype.name == {target!r} and ss.vartype.name == {vt!r}\n'
+             f'assert list(n.variables) == {labels!r} and list(ss.variables) == {labels!r}\n'
+             f'assert n.record.sample.tolist() == {exp_rows!r}, n.record.sample.tolist()\n'
+             f'assert [float(e) for e in n.record.energy] == {exp_en!r}, list(n.record.energy)\n'
+             f'assert ss.record.sample.tolist() == {rows!r} and [float(e) for e in ss.record.energy] == {[float(e) for e in en]!r}\n')
+    site = 'SampleSet.change_vartype'
+    ic = f'{vt}->{target}; second conversion of one sample set after the arrays of the first result were edited in place'
+    ctx.tick(site + ' (repeated on one object)')
+    ctx.case((site, 'twice', src), nontrivial=True)
+    ns = {}
+    try:
+        exec(src + check, ns)
+    except AssertionError as e:
+        ctx.fail('property', site, ic, f'{e}'[:300], repro=src + check)
+    except Exception as e:  # noqa
+        ctx.fail('property', site, ic, f'{type(e).__name__}: {e}'[:300], repro=src + check)
+
+
 def case_from_dicts(ctx, r, B):
     """BQM.from_ising / from_qubo (constructors) and to_ising / to_qubo incl. offsets, energies at every sample;
     the constructed model is compared with `LBqm.fromIsing` / `LBqm.fromQubo` (`_init_components` as modelled)"""
@@ -1562,7 +1602,7 @@ def run(ctx):
                 'non-trivial = the model has variables / the step went through a view of the other vartype or changed the state')
     for i in range(n):
         kind = r.choice(['bqm', 'bqmhist', 'bqmhist', 'hist', 'hist', 'hist', 'qm', 'cqm', 'cqm', 'poly', 'polyh', 'dicts', 'ss', 'ss', 'fromdicts',
-                         'polyhist', 'polyhist', 'twice'])
+                         'polyhist', 'polyhist', 'twice', 'sstwice'])
         ctx.tick('kind:' + kind)
         if kind == 'bqm':
             case_bqm_convert(ctx, r, B)
@@ -1580,6 +1620,8 @@ def run(ctx):
             case_poly_history(ctx, r, B)
         elif kind == 'twice':
             case_convert_twice(ctx, r, B)
+        elif kind == 'sstwice':
+            case_sampleset_twice(ctx, r, B)
         elif kind == 'polyh':
             case_poly_h(ctx, r, B)
         elif kind == 'dicts':
